@@ -126,19 +126,19 @@ def _check_ldf(utils, v, s2, d2, w, h, dist, details, perms=PERMS):
                     "not the neighbour in the direction it is labelled with",
                     dict(details, vector=list(v), at=list(cur),
                          link=int(direction), reported=[x, y]))
-            if w is not None:
-                require(0 <= x < w and 0 <= y < h, "longest_dimension_first: "
-                        "step outside the torus", dict(details, step=[x, y]))
+            require((w is None or 0 <= x < w) and (h is None or 0 <= y < h),
+                    "longest_dimension_first: step outside the wrapped "
+                    "range", dict(details, step=[x, y]))
             cur = (x, y)
             dim = int(direction) % 3
             if runs and runs[-1][0] == dim:
                 runs[-1][1] += 1
             else:
                 runs.append([dim, 1])
-        if w is not None:
-            at_end = (cur[0] - d2[0]) % w == 0 and (cur[1] - d2[1]) % h == 0
-        else:
-            at_end = cur == tuple(d2)
+        at_end = ((cur[0] - d2[0]) % w == 0 if w is not None
+                  else cur[0] == d2[0]) and \
+                 ((cur[1] - d2[1]) % h == 0 if h is not None
+                  else cur[1] == d2[1])
         require(at_end, "longest_dimension_first: walk does not end at the "
                 "destination", dict(details, vector=list(v), end=list(cur)))
         lens = [r[1] for r in runs]
@@ -275,6 +275,15 @@ def check_mesh(case):
             _check_ldf(utils, v, (sx, sy), (sx + dx, sy + dy), None, None,
                        dist, {"source": [sx, sy],
                               "destination": [sx + dx, sy + dy]})
+            # width and height are independent options: a walk that wraps
+            # on one axis only (documented: "If None, no wrapping")
+            for W, H in ((5, None), (None, 4), (2, None), (None, 1)):
+                s2 = (sx % W if W else sx, sy % H if H else sy)
+                d2 = (s2[0] + dx, s2[1] + dy)
+                d2 = (d2[0] % W if W else d2[0], d2[1] % H if H else d2[1])
+                _check_ldf(utils, v, s2, d2, W, H, dist,
+                           {"source": list(s2), "vector": list(v),
+                            "width": W, "height": H}, PERMS[:2])
     return {"nontrivial": abs(dx) >= 1}
 
 
